@@ -34,7 +34,7 @@ class repo_lock:
     def __enter__(self):
         import fcntl
         self.f = open(self.PATH, "a+")
-        if os.environ.get("MSCRIPT_VERIF_LOCK_HELD") != "1":      # a tool that holds the exclusive lock runs the checks itself
+        if os.environ.get("MSCRIPT_VERIF_LOCK_HELD") != "1" and REPO == "/repo":      # a tool that holds the exclusive lock runs the checks itself; a scratch copy of the repository (MSCRIPT_REPO) needs no lock
             fcntl.flock(self.f, fcntl.LOCK_EX if self.exclusive else fcntl.LOCK_SH)
         return self
 
@@ -73,8 +73,25 @@ PROBE2_DIR = os.path.join(VERIF, "ffiprobe2")
 PROBE2_LIB = os.path.join(TARGET, "debug", "libffiprobe2.so")
 
 
+def _probe_src(pdir):
+    """the probe crates name /repo/bytecode; against a scratch copy of the repository (MSCRIPT_REPO) they are copied next to the build
+    output with the path rewritten, so that probe and binary are built from the same `bytecode` sources"""
+    if REPO == "/repo":
+        return pdir
+    import shutil
+    dst = os.path.join(BUILD_ROOT, "probes", os.path.basename(pdir))
+    shutil.copytree(pdir, dst, dirs_exist_ok=True, ignore=shutil.ignore_patterns("target"))
+    ct = os.path.join(dst, "Cargo.toml")
+    with open(ct) as f:
+        t = f.read()
+    with open(ct, "w") as f:
+        f.write(t.replace('"/repo/bytecode"', '"' + os.path.join(REPO, "bytecode") + '"'))
+    return dst
+
+
 def build_probe():
     for pdir, plib in ((PROBE_DIR, PROBE_LIB), (PROBE2_DIR, PROBE2_LIB)):
+        pdir = _probe_src(pdir)
         cmd = ["cargo", "build", "--offline"]
         p = subprocess.run(cmd, cwd=pdir, env=cargo_env(), stdout=subprocess.PIPE,
                            stderr=subprocess.STDOUT, text=True)
